@@ -596,3 +596,6 @@ def run(idx: ProgramIndex, rep: Report, tier: str):
     rep.rule("C11-3", "every layout-sensitive accessor converts between flat storage order and natural (n, t) layout correctly for both layouts; flag propagated")
     check_getitem(idx, rep)
     check_layout(idx, rep)
+    from .common_alias import aliasing_obligations
+    rep.rule("C11-4", "no in-place aliasing hazard in MultitaskMultivariateNormal (storage/version domain)")
+    aliasing_obligations(idx, rep, "C11-4", list(idx.cls(MOD, "MultitaskMultivariateNormal").methods.values()), 10, "MultitaskMultivariateNormal methods interpreted")
